@@ -378,6 +378,36 @@ def r26(ctx, rep):
                 rep.finding("R2.6", g, norm(r)[:100], r.lineno, "maxcv does not return the maximum of the violation vector (or 0.0)")
     if n < 3:
         raise AnalysisError("maxcv return statements not found")
+    # NaN constraint values must stay visible in the violation (reported raw)
+    NAN_DROP = {"fmax", "fmin", "nanmax", "nanmin", "nan_to_num", "nansum", "nanmean"}
+    for c in ("Problem", "LinearConstraints", "NonlinearConstraints", "BoundConstraints"):
+        for name in ("maxcv", "violation"):
+            g = ctx.repo.cls(c).methods.get(name)
+            if g is None:
+                continue
+            hit = None
+            for node in ast.walk(g.node):
+                if isinstance(node, ast.Call) and (dotted(node.func) or "").split(".")[-1] in NAN_DROP:
+                    hit = node
+            if hit is not None:
+                rep.bad("R2.6", f"{g.local} NaN handling")
+                rep.finding("R2.6", g, norm(hit)[:100], hit.lineno, f"`{norm(hit.func)}` discards NaN: an undefined constraint value would count as zero violation and the point would be reported feasible (values must be reported raw)")
+            else:
+                rep.ok("R2.6", f"{g.local}: NaN constraint values propagate to the violation")
+    nv = ctx.func("cobyqa.problem:NonlinearConstraints.violation")
+    forms = {"ub": False, "eq": False}
+    for node in ast.walk(nv.node):
+        if isinstance(node, ast.Call):
+            sh = (dotted(node.func) or "").split(".")[-1]
+            if sh == "maximum" and len(node.args) == 2 and mentions(node.args[0], "cub_val") and const_value(node.args[1]) in (0, 0.0):
+                forms["ub"] = True
+            if sh in ("abs", "absolute") and node.args and mentions(node.args[0], "ceq_val"):
+                forms["eq"] = True
+    if all(forms.values()):
+        rep.ok("R2.6", f"{nv.local}: violation = (max(cub, 0), |ceq|)")
+    else:
+        rep.bad("R2.6", f"{nv.local} form")
+        rep.finding("R2.6", nv, "violation formula", nv.node.lineno, "the nonlinear violation is not (maximum(cub_val, 0), abs(ceq_val)) of the supplied values")
 
 
 def _from_violation(ctx, g, e):
